@@ -116,7 +116,7 @@ Proof.
   destruct (len (rle_fragment segs) <? 4) eqn:E1; [lia|].
   destruct (firstn_skipn_hdr segs) as [-> ->].
   rewrite le_val_le_bytes_small by (change (8 * N.of_nat 4) with 32; lia).
-  destruct (2 ^ 32 <=? 4 * (N.of_nat (length segs) + 1)) eqn:E2; [lia|].
+  destruct (15 <? N.of_nat (length segs)) eqn:E2; [lia|].
   destruct (len (rle_fragment segs) <? 4 * (N.of_nat (length segs) + 1)) eqn:E3; [lia|].
   rewrite Nat2N.id. rewrite <- (seg_offsets_length 64 segs) at 1.
   rewrite read_u32s_flat; [reflexivity|].
